@@ -382,10 +382,108 @@ FamilyBad == {k \in DOMAIN NgapTypes :
                  LET r == FamilyRule(NameOf(k)) t == Inner(NgapTypes[k]) IN
                  r[1] >= 0 /\ t.k = "seqof" /\ ~(t.lb.has /\ t.ub.has /\ t.lb.n = r[1] /\ t.ub.n = r[2] /\ ~t.ext)}
 FamilyCount == Cardinality({k \in DOMAIN NgapTypes : FamilyRule(NameOf(k))[1] >= 0 /\ Inner(NgapTypes[k]).k = "seqof"})
+\* TS 38.413 9.4.7: the protocol IE identifiers (Go spelling of id-<Name>: hyphens dropped, each part capitalised).  Every alternative of
+\* an information element container's open type must be tagged with the identifier the standard assigns to the IE of that name
+\* (`referenceFieldValue`): the specification's own encoder and decoder take the identifier from the same tags, so a wrong number
+\* there is invisible to every check that goes through the type dictionary.
+IeNames == <<
+   <<0, "AllowedNSSAI">>, <<1, "AMFName">>, <<2, "AMFOverloadResponse">>, <<3, "AMFSetID">>,
+   <<4, "AMFTNLAssociationFailedToSetupList">>, <<5, "AMFTNLAssociationSetupList">>, <<6, "AMFTNLAssociationToAddList">>, <<7, "AMFTNLAssociationToRemoveList">>,
+   <<8, "AMFTNLAssociationToUpdateList">>, <<9, "AMFTrafficLoadReductionIndication">>, <<10, "AMFUENGAPID">>, <<11, "AssistanceDataForPaging">>,
+   <<12, "BroadcastCancelledAreaList">>, <<13, "BroadcastCompletedAreaList">>, <<14, "CancelAllWarningMessages">>, <<15, "Cause">>,
+   <<16, "CellIDListForRestart">>, <<17, "ConcurrentWarningMessageInd">>, <<18, "CoreNetworkAssistanceInformation">>, <<19, "CriticalityDiagnostics">>,
+   <<20, "DataCodingScheme">>, <<21, "DefaultPagingDRX">>, <<22, "DirectForwardingPathAvailability">>, <<23, "EmergencyAreaIDListForRestart">>,
+   <<24, "EmergencyFallbackIndicator">>, <<25, "EUTRACGI">>, <<26, "FiveGSTMSI">>, <<27, "GlobalRANNodeID">>,
+   <<28, "GUAMI">>, <<29, "HandoverType">>, <<30, "IMSVoiceSupportIndicator">>, <<31, "IndexToRFSP">>,
+   <<32, "InfoOnRecommendedCellsAndRANNodesForPaging">>, <<33, "LocationReportingRequestType">>, <<34, "MaskedIMEISV">>, <<35, "MessageIdentifier">>,
+   <<36, "MobilityRestrictionList">>, <<37, "NASC">>, <<38, "NASPDU">>, <<39, "NASSecurityParametersFromNGRAN">>,
+   <<40, "NewAMFUENGAPID">>, <<41, "NewSecurityContextInd">>, <<42, "NGAPMessage">>, <<43, "NGRANCGI">>,
+   <<44, "NGRANTraceID">>, <<45, "NRCGI">>, <<46, "NRPPaPDU">>, <<47, "NumberOfBroadcastsRequested">>,
+   <<48, "OldAMF">>, <<49, "OverloadStartNSSAIList">>, <<50, "PagingDRX">>, <<51, "PagingOrigin">>,
+   <<52, "PagingPriority">>, <<53, "PDUSessionResourceAdmittedList">>, <<54, "PDUSessionResourceFailedToModifyListModRes">>, <<55, "PDUSessionResourceFailedToSetupListCxtRes">>,
+   <<56, "PDUSessionResourceFailedToSetupListHOAck">>, <<57, "PDUSessionResourceFailedToSetupListPSReq">>, <<58, "PDUSessionResourceFailedToSetupListSURes">>, <<59, "PDUSessionResourceHandoverList">>,
+   <<60, "PDUSessionResourceListCxtRelCpl">>, <<61, "PDUSessionResourceListHORqd">>, <<62, "PDUSessionResourceModifyListModCfm">>, <<63, "PDUSessionResourceModifyListModInd">>,
+   <<64, "PDUSessionResourceModifyListModReq">>, <<65, "PDUSessionResourceModifyListModRes">>, <<66, "PDUSessionResourceNotifyList">>, <<67, "PDUSessionResourceReleasedListNot">>,
+   <<68, "PDUSessionResourceReleasedListPSAck">>, <<69, "PDUSessionResourceReleasedListPSFail">>, <<70, "PDUSessionResourceReleasedListRelRes">>, <<71, "PDUSessionResourceSetupListCxtReq">>,
+   <<72, "PDUSessionResourceSetupListCxtRes">>, <<73, "PDUSessionResourceSetupListHOReq">>, <<74, "PDUSessionResourceSetupListSUReq">>, <<75, "PDUSessionResourceSetupListSURes">>,
+   <<76, "PDUSessionResourceToBeSwitchedDLList">>, <<77, "PDUSessionResourceSwitchedList">>, <<78, "PDUSessionResourceToReleaseListHOCmd">>, <<79, "PDUSessionResourceToReleaseListRelCmd">>,
+   <<80, "PLMNSupportList">>, <<81, "PWSFailedCellIDList">>, <<82, "RANNodeName">>, <<83, "RANPagingPriority">>,
+   <<84, "RANStatusTransferTransparentContainer">>, <<85, "RANUENGAPID">>, <<86, "RelativeAMFCapacity">>, <<87, "RepetitionPeriod">>,
+   <<88, "ResetType">>, <<89, "RoutingID">>, <<90, "RRCEstablishmentCause">>, <<91, "RRCInactiveTransitionReportRequest">>,
+   <<92, "RRCState">>, <<93, "SecurityContext">>, <<94, "SecurityKey">>, <<95, "SerialNumber">>,
+   <<96, "ServedGUAMIList">>, <<97, "SliceSupportList">>, <<98, "SONConfigurationTransferDL">>, <<99, "SONConfigurationTransferUL">>,
+   <<100, "SourceAMFUENGAPID">>, <<101, "SourceToTargetTransparentContainer">>, <<102, "SupportedTAList">>, <<103, "TAIListForPaging">>,
+   <<104, "TAIListForRestart">>, <<105, "TargetID">>, <<106, "TargetToSourceTransparentContainer">>, <<107, "TimeToWait">>,
+   <<108, "TraceActivation">>, <<109, "TraceCollectionEntityIPAddress">>, <<110, "UEAggregateMaximumBitRate">>, <<111, "UEAssociatedLogicalNGConnectionList">>,
+   <<112, "UEContextRequest">>, <<114, "UENGAPIDs">>, <<115, "UEPagingIdentity">>, <<116, "UEPresenceInAreaOfInterestList">>,
+   <<117, "UERadioCapability">>, <<118, "UERadioCapabilityForPaging">>, <<119, "UESecurityCapabilities">>, <<120, "UnavailableGUAMIList">>,
+   <<121, "UserLocationInformation">>, <<122, "WarningAreaList">>, <<123, "WarningMessageContents">>, <<124, "WarningSecurityInfo">>,
+   <<125, "WarningType">>, <<126, "AdditionalULNGUUPTNLInformation">>, <<127, "DataForwardingNotPossible">>, <<128, "DLNGUUPTNLInformation">>,
+   <<129, "NetworkInstance">>, <<130, "PDUSessionAggregateMaximumBitRate">>, <<131, "PDUSessionResourceFailedToModifyListModCfm">>, <<132, "PDUSessionResourceFailedToSetupListCxtFail">>,
+   <<133, "PDUSessionResourceListCxtRelReq">>, <<134, "PDUSessionType">>, <<135, "QosFlowAddOrModifyRequestList">>, <<136, "QosFlowSetupRequestList">>,
+   <<137, "QosFlowToReleaseList">>, <<138, "SecurityIndication">>, <<139, "ULNGUUPTNLInformation">>, <<140, "ULNGUUPTNLModifyList">>,
+   <<141, "WarningAreaCoordinates">>, <<142, "PDUSessionResourceSecondaryRATUsageList">>, <<143, "HandoverFlag">>, <<144, "SecondaryRATUsageInformation">>,
+   <<145, "PDUSessionResourceReleaseResponseTransfer">>, <<146, "RedirectionVoiceFallback">>, <<147, "UERetentionInformation">>, <<148, "SNSSAI">>,
+   <<149, "PSCellInformation">>, <<150, "LastEUTRANPLMNIdentity">>, <<151, "MaximumIntegrityProtectedDataRateDL">>, <<152, "AdditionalDLForwardingUPTNLInformation">> >>
+\* TS 38.413 9.4.3 (elementary procedures): the message of each procedure code, per message class
+InitiatingNames == <<
+   <<0, "AMFConfigurationUpdate">>, <<1, "AMFStatusIndication">>, <<2, "CellTrafficTrace">>,
+   <<3, "DeactivateTrace">>, <<4, "DownlinkNASTransport">>, <<5, "DownlinkNonUEAssociatedNRPPaTransport">>,
+   <<6, "DownlinkRANConfigurationTransfer">>, <<7, "DownlinkRANStatusTransfer">>, <<8, "DownlinkUEAssociatedNRPPaTransport">>,
+   <<9, "ErrorIndication">>, <<10, "HandoverCancel">>, <<11, "HandoverNotify">>,
+   <<12, "HandoverRequired">>, <<13, "HandoverRequest">>, <<14, "InitialContextSetupRequest">>,
+   <<15, "InitialUEMessage">>, <<16, "LocationReportingControl">>, <<17, "LocationReportingFailureIndication">>,
+   <<18, "LocationReport">>, <<19, "NASNonDeliveryIndication">>, <<20, "NGReset">>,
+   <<21, "NGSetupRequest">>, <<22, "OverloadStart">>, <<23, "OverloadStop">>,
+   <<24, "Paging">>, <<25, "PathSwitchRequest">>, <<26, "PDUSessionResourceModifyRequest">>,
+   <<27, "PDUSessionResourceModifyIndication">>, <<28, "PDUSessionResourceReleaseCommand">>, <<29, "PDUSessionResourceSetupRequest">>,
+   <<30, "PDUSessionResourceNotify">>, <<31, "PrivateMessage">>, <<32, "PWSCancelRequest">>,
+   <<33, "PWSFailureIndication">>, <<34, "PWSRestartIndication">>, <<35, "RANConfigurationUpdate">>,
+   <<36, "RerouteNASRequest">>, <<37, "RRCInactiveTransitionReport">>, <<38, "TraceFailureIndication">>,
+   <<39, "TraceStart">>, <<40, "UEContextModificationRequest">>, <<41, "UEContextReleaseCommand">>,
+   <<42, "UEContextReleaseRequest">>, <<43, "UERadioCapabilityCheckRequest">>, <<44, "UERadioCapabilityInfoIndication">>,
+   <<45, "UETNLABindingReleaseRequest">>, <<46, "UplinkNASTransport">>, <<47, "UplinkNonUEAssociatedNRPPaTransport">>,
+   <<48, "UplinkRANConfigurationTransfer">>, <<49, "UplinkRANStatusTransfer">>, <<50, "UplinkUEAssociatedNRPPaTransport">>,
+   <<51, "WriteReplaceWarningRequest">> >>
+SuccessfulNames == <<
+   <<0, "AMFConfigurationUpdateAcknowledge">>, <<10, "HandoverCancelAcknowledge">>, <<12, "HandoverCommand">>,
+   <<13, "HandoverRequestAcknowledge">>, <<14, "InitialContextSetupResponse">>, <<20, "NGResetAcknowledge">>,
+   <<21, "NGSetupResponse">>, <<25, "PathSwitchRequestAcknowledge">>, <<26, "PDUSessionResourceModifyResponse">>,
+   <<27, "PDUSessionResourceModifyConfirm">>, <<28, "PDUSessionResourceReleaseResponse">>, <<29, "PDUSessionResourceSetupResponse">>,
+   <<32, "PWSCancelResponse">>, <<35, "RANConfigurationUpdateAcknowledge">>, <<40, "UEContextModificationResponse">>,
+   <<41, "UEContextReleaseComplete">>, <<43, "UERadioCapabilityCheckResponse">>, <<51, "WriteReplaceWarningResponse">> >>
+UnsuccessfulNames == <<
+   <<0, "AMFConfigurationUpdateFailure">>, <<12, "HandoverPreparationFailure">>, <<13, "HandoverFailure">>,
+   <<14, "InitialContextSetupFailure">>, <<21, "NGSetupFailure">>, <<25, "PathSwitchRequestFailure">>,
+   <<35, "RANConfigurationUpdateFailure">>, <<40, "UEContextModificationFailure">> >>
+NameFor(tab, ref) == IF \E i \in 1..Len(tab) : tab[i][1] = ref THEN tab[CHOOSE i \in 1..Len(tab) : tab[i][1] = ref][2] ELSE "(no such identifier)"
+TableFor(k) == IF HasPrefix(NameOf(k), "InitiatingMessageValue") THEN InitiatingNames
+               ELSE IF HasPrefix(NameOf(k), "SuccessfulOutcomeValue") THEN SuccessfulNames
+               ELSE IF HasPrefix(NameOf(k), "UnsuccessfulOutcomeValue") THEN UnsuccessfulNames ELSE IeNames
+OpenKeys == {k \in DOMAIN NgapTypes : NgapTypes[k].k = "open"}
+\* <<dictionary key, alternative index>> of the alternatives whose identifier is not that of their name, and of identifiers used twice
+OpenRefBad == {<<k, i>> \in UNION {{<<k, i>> : i \in 1..Len(NgapTypes[k].alts)} : k \in OpenKeys} :
+                 LET a == NgapTypes[k].alts IN
+                 NameFor(TableFor(k), a[i].ref) # a[i].name \/ \E j \in 1..Len(a) : j # i /\ a[j].ref = a[i].ref}
+\* the three message containers hold exactly the messages of the standard
+MsgCountBad == {k \in OpenKeys : TableFor(k) # IeNames /\ Len(NgapTypes[k].alts) # Len(TableFor(k))}
+\* generic rule for SEQUENCE types (TS 38.413 9.4.5 / 9.4.4): every information element SEQUENCE ends in
+\* "iE-Extensions ProtocolExtensionContainer {{...}} OPTIONAL, ..." and every message SEQUENCE is "{ protocolIEs ProtocolIE-Container {{...}}, ... }":
+\* a dictionary entry (type at one use site, with the parameters of the referring field) that has such a component must carry the
+\* extension marker, and iE-Extensions must be its last component and OPTIONAL.  The library takes a SEQUENCE's extension marker from
+\* the tag of the *referring* field, so one use site can lose it while the others keep it.
+SeqMarked == {k \in DOMAIN NgapTypes : NgapTypes[k].k = "seq" /\ \E i \in 1..Len(NgapTypes[k].fields) : NgapTypes[k].fields[i].name \in {"IEExtensions", "ProtocolIEs"}}
+SeqRuleBad == {k \in SeqMarked : LET t == NgapTypes[k] n == Len(t.fields) IN
+                 ~(t.ext /\ ((\E i \in 1..n : t.fields[i].name = "IEExtensions") => (t.fields[n].name = "IEExtensions" /\ t.fields[n].opt)))}
 Init == l = 1 /\ bad = 0
 Next == /\ l <= Len(Rows)
         /\ (IF l = 1
-            THEN /\ PrintT("FAMILY " \o ToString(FamilyCount + Len(Structs)))
+            THEN /\ PrintT("FAMILY " \o ToString(FamilyCount + Len(Structs) + Cardinality(SeqMarked) + Cardinality(OpenKeys)))
+                 /\ \A p \in OpenRefBad : PrintT("REJECT line=0 id=" \o p[1] \o " ev=Tag why=C03: " \o p[1] \o ": alternative " \o NgapTypes[p[1]].alts[p[2]].name
+                                                   \o " is tagged with identifier " \o ToString(NgapTypes[p[1]].alts[p[2]].ref) \o ", which TS 38.413 assigns to "
+                                                   \o NameFor(TableFor(p[1]), NgapTypes[p[1]].alts[p[2]].ref) \o " (or the identifier is used twice in this container)")
+                 /\ \A k \in MsgCountBad : PrintT("REJECT line=0 id=" \o k \o " ev=Tag why=C03: " \o k \o ": " \o ToString(Len(NgapTypes[k].alts)) \o " messages in this class, TS 38.413 defines " \o ToString(Len(TableFor(k))))
+                 /\ \A k \in SeqRuleBad : PrintT("REJECT line=0 id=" \o k \o " ev=Tag why=C03: " \o k \o ": a SEQUENCE with iE-Extensions / protocolIEs is extensible in TS 38.413 (and iE-Extensions is its last, OPTIONAL component); the struct tags at this use site give ext " \o ToString(NgapTypes[k].ext))
                  /\ \A i \in 1..Len(Structs) : LET c == StructComplaint(Structs[i]) IN
                        IF c = "ok" THEN TRUE
                        ELSE IF c = "absent" THEN PrintT("ABSENTSTRUCT " \o Structs[i][1])
